@@ -16,6 +16,10 @@ package caching
 //@ spec DJBHash32
 //@   trusted
 
+// StrHash wraps the runtime's string hash (linkname, assembly): trusted to be read-only; no caller's contract depends on its value.
+//@ spec StrHash
+//@   trusted
+
 // Get: probing stops ONLY at an empty slot (miss) or at a slot whose hash AND key equal the wanted ones (hit, its
 // value is returned) — a slot that merely shares the hash does not end the search. Nothing is written.
 // Termination is ASSUMED: the table is never full (NewHashMap allocates loadFactor × the number of keys).
